@@ -477,6 +477,24 @@ func c09Exec(c *engine.Ctx, cs c09Case) {
 		fail("length-panic", fmt.Sprintf("Length() panicked: %v", p))
 		return
 	}
+	// measures are those of the coordinates as plain numbers: an SRID set on the geometry (4326 is
+	// longitude/latitude, 3857 web mercator) changes nothing
+	for _, srid := range []int{4326, 3857, 0} {
+		var a2, l2 float64
+		if p, _ := engine.Guard(func() {
+			if _, err := geom.SetSRID(t, srid); err != nil {
+				panic(err)
+			}
+			a2, l2 = m.Area(), m.Length()
+		}); p != nil {
+			fail("srid-panic", fmt.Sprintf("Area()/Length() after SetSRID(%d) panicked: %v", srid, p))
+			return
+		}
+		if math.Float64bits(a2) != math.Float64bits(area) || math.Float64bits(l2) != math.Float64bits(length) {
+			fail("srid-dependent", fmt.Sprintf("area %v length %v, but %v and %v after SetSRID(%d)", area, length, a2, l2, srid))
+			return
+		}
+	}
 	// the same geometry in its other representations: zero-length parts recorded as non-nil empty
 	// slices (what a caller of the New*Flat constructors may pass) instead of nil, and a clone of that
 	for _, v := range emptySliceVariants(t) {
